@@ -191,6 +191,20 @@ def run(ctx):
                     a, b = b, a
                 ka, kb = rng.choice([(1, 1), (2, 1), (1, 2), (3, 1), (1, 3), (2, 2)])
                 threads = rng.choice([1, 4])
+        if i % 8 == 5:
+            # dovetails: the two sequences overlap in a core shorter than their overhangs (the optimal path leaves a Hirschberg split row through the
+            # last column of a sub-problem), groups on both sides
+            kind, t = "protein", rng.choice([3, 3, 4])
+            Cn = rng.choice([60, 100, 150, 250])
+            core = gen.rand_seq(rng, gen.AA, Cn)
+            core2 = "".join(ch if rng.random() > 0.03 else rng.choice(gen.AA) for ch in core)
+            a = gen.rand_seq(rng, gen.AA, Cn + rng.choice([10, 30, 60])) + core
+            b = core2 + gen.rand_seq(rng, gen.AA, Cn + rng.choice([5, 10, 40]))
+            if rng.random() < 0.5:
+                a, b = b, a
+            ka, kb = rng.choice([(2, 2), (2, 2), (3, 2), (2, 3), (3, 3), (1, 2), (1, 1)])
+            pens = [-1, -1, -1]
+            threads = rng.choice([1, 4])
         todo.append(dict(kind=kind, a=a, b=b, t=t, pens=pens, ka=ka, kb=kb, bt=0 if kind == "protein" else 1, threads=threads))
     conv = []
     for d in todo:
